@@ -363,7 +363,8 @@ def run(prop, tier, seed):
             if want == "C12" and prop != "C12":
                 continue  # the happens-before monitor only runs for C12
             if not [v for v in viol if v["driver"] == did and v["prop"] == want]:
-                raise ToolError("model counterexample %s (%s) does not reproduce on the real code" % (did, cx["prop"]))
+                # model and code disagree on this schedule: DRIFT (TraceSyncImpl says at which access), never a verdict
+                drift.append({"what": "model-counterexample-not-reproduced:" + cx["prop"], "driver": did, "i": 0, "arena": 0, "op": None})
         if a["flags"].get("expect_live") and a.get("liveness_rc"):
             log("note: liveness counterexample in scenario %s where none was expected" % a["name"])
     mine = [v for v in viol if v["prop"] == prop]
@@ -385,6 +386,9 @@ def run(prop, tier, seed):
         "model_counterexamples_replayed": sum(len(a["cex"]) for a in analysed),
         "executions_stuck": stuck_n,
         "events": len(lines),
+        # non-vacuity of the binding: which arms of the micro-op table the real code executed (matched access by access)
+        "micro_op_labels_executed_by_real_code": sorted(es.LABELS_SEEN),
+        "micro_op_labels_never_executed": sorted(set(es.all_labels()) - es.LABELS_SEEN),
     }
     assumptions = [
         "interleaving (sequentially consistent) semantics at the granularity of the crate's atomic accesses; weak-memory-only behaviours are not enumerated",
